@@ -44,6 +44,16 @@ PROPS = {
         "quick": {"stages": [st("^TestC19", 1500)]},
         "thorough": {"stages": [st("^TestC19", 12000, shards=12), st("^TestC19", 2000, shards=4, race=True)]},
     },
+    "C08": {
+        "pkg": "handlers", "level": "exploration",
+        "quick": {"stages": [st("^TestMerge", 6000)]},
+        "thorough": {"stages": [st("^TestMerge", 60000, shards=12), st("^TestMerge", 5000, shards=4, race=True)]},
+    },
+    "C09": {
+        "pkg": "handlers", "level": "exploration",
+        "quick": {"stages": [st("^TestMerge", 6000)]},
+        "thorough": {"stages": [st("^TestMerge", 60000, shards=12), st("^TestMerge", 5000, shards=4, race=True)]},
+    },
     "C10": {
         "pkg": "core", "level": "exploration",
         "quick": {"stages": [st("^TestC10", 15000)]},
